@@ -105,6 +105,15 @@ Theorem C11_stream_witness : forall cap fs,
   stream cap (map FData ys ++ (if is_nil rest then [] else [FData rest])) = stream cap fs.
 Proof. exact stream_witness. Qed.
 
+(* the stream looks at data frames only through their lengths: running the
+   length-level stream on the frames' lengths gives exactly the sizes of the
+   chunks yielded, the outcome and the number of frames pulled (how runs on
+   bodies of mebibytes and gibibytes are compared with the model) *)
+Theorem C11_stream_depends_on_lengths : forall cap fs,
+  stream_len cap (map lframe_of fs) = (map blen (fst (stream cap fs)), snd (stream cap fs)) /\
+  frames_polled_len cap (map lframe_of fs) = frames_polled cap fs.
+Proof. exact stream_len_abs. Qed.
+
 (* the usize addition [bytes_read + len] of the Rust does not wrap — side
    condition: the body is smaller than 2^64 bytes *)
 Theorem C11_usize_no_wrap : forall cap fs,
@@ -267,6 +276,7 @@ Print Assumptions C11_buffered_oversize.
 Print Assumptions C11_drained.
 Print Assumptions C11_chunking_irrelevant.
 Print Assumptions C11_stream_witness.
+Print Assumptions C11_stream_depends_on_lengths.
 Print Assumptions C11_usize_no_wrap.
 Print Assumptions C11_all_extractors_capped.
 Print Assumptions C11_exposed_bounded.
